@@ -25,6 +25,7 @@ type c11Fault struct {
 	DelayMs int    `json:"delay_ms,omitempty"`
 	State   string `json:"state,omitempty"`
 	End     string `json:"end,omitempty"` // inbound: close, reset, cease
+	Sub     *uint8 `json:"sub,omitempty"` // subcode of the Cease (nil: 4)
 }
 
 type c11Case struct {
@@ -93,12 +94,13 @@ func c11Prop(t *testing.T, r *hx.Run) func(c c11Case) hx.Verdict {
 			runs := map[int]int{}
 			runID := 0
 			// endSession ends a session/connection from the remote side
+			ceaseSub := uint8(4)
 			end := func(cn *memnet.Conn, how string) {
 				switch how {
 				case "reset":
 					cn.RemoteReset()
 				case "cease":
-					cn.RemoteSend(wire.Notif{Code: 6, Sub: 4}.Frame(), nil)
+					cn.RemoteSend(wire.Notif{Code: 6, Sub: ceaseSub}.Frame(), nil)
 					w.Settle()
 					cn.RemoteClose()
 				default:
@@ -113,6 +115,10 @@ func c11Prop(t *testing.T, r *hx.Run) func(c c11Case) hx.Verdict {
 				}
 			}
 			for fi, f := range c.Faults {
+				ceaseSub = 4
+				if f.Sub != nil {
+					ceaseSub = *f.Sub
+				}
 				done := len(w.Net.Dials())
 				if fi == 0 {
 					done = 0 // the attempt made at Serve time already follows fault 0's plan
@@ -342,6 +348,12 @@ func genC11(rt *rapid.T) c11Case {
 		case "inbound":
 			f.State = pick(rt, "istate", stOpenSent, stOpenConfirm, stEstablished, stEstablished)
 			f.End = pick(rt, "iend", "close", "reset", "cease")
+		}
+		if f.Kind == "cease" || f.End == "cease" {
+			if rapid.Bool().Draw(rt, "withsub") {
+				sub := pick[uint8](rt, "sub", 0, 1, 2, 3, 5, 6, 7, 8, 9, 10, 255, rapid.Byte().Draw(rt, "subr"))
+				f.Sub = &sub
+			}
 		}
 		c.Faults = append(c.Faults, f)
 	}
